@@ -121,6 +121,11 @@ def step (s : St) (args : List String) : St × String × String :=
       match Driver.Poll.run mode first polls inj with
       | some (t, r) => ({ ret := r, mon := "ok" }, t, t)
       | none => ({}, "bad-scenario", "bad-scenario")
+  | ["new", "pxr", k] =>
+      -- a Poll in flight across a second Subscribe, then Close: judged by the Go-side monitor only (rc_pxr.go)
+      match k.toNat? with
+      | some n => if 1 ≤ n ∧ n ≤ 40 then ({ ret := "-", mon := "ok" }, "pxr=ok", "pxr=ok") else ({}, "bad-scenario", "bad-scenario")
+      | none => ({}, "bad-scenario", "bad-scenario")
   | ["new", "gf", outs, sched] =>
       -- `client.NewImpl` = getFirst over several client types (Model/ClientFirst.lean, Driver/GF.lean)
       match Driver.GF.run outs sched with
